@@ -320,7 +320,7 @@ func (x *explorer) runJob(j job) {
 				}
 			}
 		}
-		def, alts, sv := r.succ()
+		def, alts, sv := r.succ(j.used)
 		if sv != nil {
 			x.report(c, r, sv)
 			return
@@ -338,6 +338,7 @@ func (x *explorer) runJob(j job) {
 			copy(pf, base)
 			pf[len(base)] = a.e
 			x.st.forks.Inc()
+			x.st.outcome(fmt.Sprintf("fork:%s:cost%d:from-used%d", a.e.K, a.cost, j.used))
 			x.push(job{c: c, ci: j.ci, prefix: pf, budget: budget - a.cost, used: j.used + a.cost})
 		}
 		v = r.do(*def)
